@@ -49,7 +49,7 @@ func (r *Rng) Intn(n int) int {
 	return int(r.Next() % uint64(n))
 }
 
-func (r *Rng) Bool() bool       { return r.Next()&1 == 1 }
+func (r *Rng) Bool() bool        { return r.Next()&1 == 1 }
 func (r *Rng) Chance(p int) bool { return r.Intn(100) < p }
 
 func Pick[T any](r *Rng, xs ...T) T { return xs[r.Intn(len(xs))] }
